@@ -57,6 +57,17 @@ GROUPS["C03"] = [dict(file=UT, name="UtestShell::" + n, coq="src_" + n, calls=_C
                   "assertCstrNoCaseContains", "assertLongsEqual", "assertUnsignedLongsEqual", "assertLongLongsEqual",
                   "assertUnsignedLongLongsEqual", "assertSignedBytesEqual", "assertPointersEqual", "assertFunctionPointersEqual",
                   "assertBinaryEqual", "assertBitsEqual", "assertEquals", "assertCompare"]]
+TF = "src/CppUTest/TestFailure.cpp"
+_C14C = {"at": {"fn": "src_at", "obj": BUF}, "ToLower": "leaf_ToLower {0}"}
+GROUPS["C14"] = [
+    dict(file=TF, name="CheckEqualFailure::CheckEqualFailure", coq="src_scan_CheckEqual_raw", loop_index=0, calls=_C14C),
+    dict(file=TF, name="CheckEqualFailure::CheckEqualFailure", coq="src_scan_CheckEqual_printable", loop_index=1, calls=_C14C),
+    dict(file=TF, name="StringEqualFailure::StringEqualFailure", coq="src_scan_StringEqual_raw", loop_index=0, calls=_C14C),
+    dict(file=TF, name="StringEqualFailure::StringEqualFailure", coq="src_scan_StringEqual_printable", loop_index=1, calls=_C14C),
+    dict(file=TF, name="StringEqualNoCaseFailure::StringEqualNoCaseFailure", coq="src_scan_NoCase_raw", loop_index=0, calls=_C14C),
+    dict(file=TF, name="StringEqualNoCaseFailure::StringEqualNoCaseFailure", coq="src_scan_NoCase_printable", loop_index=1, calls=_C14C),
+    dict(file=TF, name="BinaryEqualFailure::BinaryEqualFailure", coq="src_scan_Binary", loop_index=0, calls=_C14C),
+]
 UPL = "src/Platforms/Gcc/UtestPlatform.cpp"
 GROUPS["C11"] = [
     dict(file=UPL, name="GccPlatformSpecificRunTestInASeperateProcess", coq="src_runInSeparateProcess",
@@ -73,6 +84,9 @@ GROUPS["C20"] = [
          calls={"printBuffer": {"ghost": "out", "update": "emit mem {0} out"}}),
 ]
 HEADERS = {
+    "C14": "From CppUVerif Require Import lib.CSem lib.CMem gen.Gen_LeafC13 gen.Gen_LoopC13.\nLocal Open Scope Z_scope.\n"
+           "(* translated by tools/cxx2gal.py: the first-difference scans of the failure constructors of TestFailure.cpp, each loop on its own "
+           "(parameters = the variables the loop reads; x.at(i) is the translated SimpleString::at on x's buffer_) *)\n",
     "C11": "From Coq Require Import String.\nFrom CppUVerif Require Import lib.CSem lib.CMem gen.Gen_LeafC11.\nLocal Open Scope Z_scope.\n"
            "(* translated by tools/cxx2gal.py: the parent/child code of GccPlatformSpecificRunTestInASeperateProcess; fork(), "
            "getFailureCount() and waitpid() take the next value of the ghost streams forks / counts / waits (a waitpid outcome is "
